@@ -62,13 +62,21 @@ def closure_of(fn):
 
 
 def parts(dist):
-    """the keyed sampler / logpdf / TFP constructor captured by tfp_distribution(...) for this wrapper"""
-    smp, lpf = dist._sample.value, dist._logpdf.value
-    ks = closure_of(smp)["keyful_sampler"].cell_contents
-    lp = closure_of(lpf)["logpdf"].cell_contents
-    ctor_s = closure_of(ks)["dist"]
-    ctor_l = closure_of(lp)["dist"]
+    """the keyed sampler / logpdf / TFP constructor captured by tfp_distribution(...) for this wrapper (closure
+    introspection: only for contracts that need the captured callables; a restructured tfp_distribution makes it an
+    engine limit, the behavioural contracts below do not depend on it)"""
+    try:
+        smp, lpf = dist._sample.value, dist._logpdf.value
+        ks = closure_of(smp)["keyful_sampler"].cell_contents
+        lp = closure_of(lpf)["logpdf"].cell_contents
+        ctor_s = closure_of(ks)["dist"]
+        ctor_l = closure_of(lp)["dist"]
+    except (KeyError, AttributeError) as e:
+        raise EngineLimit("tfp_distribution's closures are not laid out as expected (%r)" % (e,))
     return smp, lpf, ks, lp, ctor_s, ctor_l
+
+
+IGNORED_PARAMS = ("dtype", "validate_args", "allow_nan_stats", "name", "force_probs_to_zero_outside_support", "interpolate_nondiscrete", "require_integer_total_count")
 
 
 class TfpRec:
@@ -87,6 +95,122 @@ class TfpRec:
         return "logp"
 
 
+class RecCtor:
+    """a recording stand-in for a TFP distribution class, with the signature of the INSTALLED class"""
+
+    def __init__(self, log, name, signature=None):
+        self.log, self.name = log, name
+        if signature is None:
+            real_sig = inspect.signature(getattr(tfd_real, name).__init__)
+            signature = real_sig.replace(parameters=[p for n, p in real_sig.parameters.items() if n != "self"])
+        self.__signature__ = signature
+        self.__name__ = name
+
+    def __call__(self, *a, **k):
+        return TfpRec(self.log, self.name, a, k)
+
+    def bound(self, a, k):
+        b = dict(self.__signature__.bind_partial(*a, **k).arguments)
+        b.pop("kwargs", None)
+        return b
+
+
+class RecTfd:
+    def __init__(self, log):
+        self._log, self._made = log, {}
+
+    def __getattr__(self, name):
+        if name.startswith("_"):
+            raise AttributeError(name)
+        if not hasattr(tfd_real, name):
+            raise EngineLimit("recording tfd namespace: the installed TFP has no distribution %r" % name)
+        if name not in self._made:
+            self._made[name] = RecCtor(self._log, name)
+        return self._made[name]
+
+
+KEY = object()
+
+
+class site_model:
+    """what a sample / density SITE does with the callables it is built from, as proved for the binders, the seed
+    interpreter and the flat-sampler cache: the keyed sampler is called with the run's key, the site's arguments and
+    keyword arguments and the site's sample_shape; the density with (value, *args, **kwargs)"""
+
+    def __enter__(self):
+        self.saved = (pjax.sample_binder, pjax.log_density_binder)
+        Assumed.note("site model (proved in the seed / binder contracts): a sample site evaluates keyful_sampler(key, *site args, sample_shape=site shape, **site kwargs); a density site evaluates logpdf(v, *args, **kwargs)")
+
+        def sample_binder(ks, name=None, sample_shape=(), support=None, **kw):
+            return lambda *a, **k: ks(KEY, *a, sample_shape=sample_shape, **k)
+
+        def log_density_binder(lp, name=None):
+            return lambda v, *a, **k: lp(v, *a, **k)
+
+        pjax.sample_binder, pjax.log_density_binder = sample_binder, log_density_binder
+        return self
+
+    def __exit__(self, *a):
+        pjax.sample_binder, pjax.log_density_binder = self.saved
+        return False
+
+
+_COPY = {}
+
+
+def distributions_over_recording_tfd():
+    """genjax/distributions.py of the working tree, executed once more with `tfp.distributions` replaced by the
+    recording namespace (everything else - tfp_distribution, the lambdas, the names - is the real module text)"""
+    if "mod" in _COPY:
+        return _COPY["mod"], _COPY["log"]
+    import importlib, sys as _sys, types as _types
+
+    path = D.__file__
+    src = open(path).read()
+    log = []
+    fake = _types.ModuleType("tensorflow_probability.substrates.jax")
+    fake.distributions = RecTfd(log)
+    parent = importlib.import_module("tensorflow_probability.substrates")
+    saved_attr, saved_mod = getattr(parent, "jax"), _sys.modules.get("tensorflow_probability.substrates.jax")
+    mod = _types.ModuleType("genjax.distributions__recording_copy")
+    mod.__file__ = path
+    mod.__package__ = "genjax"
+    try:
+        parent.jax = fake
+        _sys.modules["tensorflow_probability.substrates.jax"] = fake
+        exec(compile(src, path, "exec"), mod.__dict__)
+    finally:
+        parent.jax = saved_attr
+        _sys.modules["tensorflow_probability.substrates.jax"] = saved_mod
+    # the lambdas in the module text look `jnp` up at call time: arithmetic on parameters goes through the jnp model
+    from vt.stubs import jnp as jnp_stub
+
+    mod.jnp = jnp_stub.namespace()
+    _COPY["mod"], _COPY["log"] = mod, log
+    return mod, log
+
+
+def call_patterns(ctor, pos):
+    """(args, kwargs, expected binding) for a wrapper whose documented positional parameters are `pos`: all
+    positional; all by keyword; every later constructor parameter given by keyword after m leading positionals
+    (m = 0 .. len(pos)-1), which includes keywords that SKIP an earlier optional parameter (probs=, log_rate= ...)"""
+    names = [n for n in ctor.__signature__.parameters if n not in IGNORED_PARAMS and n not in ("args", "kwargs")]
+    mk = lambda n: value("arg_" + n)
+    out = []
+    vals = {n: mk(n) for n in names}
+    out.append((tuple(vals[n] for n in pos), {}, {n: vals[n] for n in pos}))
+    out.append(((), {n: vals[n] for n in pos}, {n: vals[n] for n in pos}))
+    for m in range(len(pos)):
+        lead = tuple(vals[n] for n in pos[:m])
+        for q in names:
+            if q in pos[:m]:
+                continue
+            exp = {n: vals[n] for n in pos[:m]}
+            exp[q] = vals[q]
+            out.append((lead, {q: vals[q]}, exp))
+    return out
+
+
 class _NoReplay(Contract):
     def replay(self, case, clause, model, path):
         from .native import run_native
@@ -96,8 +220,10 @@ class _NoReplay(Contract):
 
 @contract("genjax.distributions:<24 wrappers>", ["C13"])
 class WrapperTable(_NoReplay):
-    """each exported wrapper selects the documented TFP constructor and binds its arguments positionally per the
-    documented parameter order; sampler and logpdf construct the distribution from the same constructor"""
+    """behavioural: the module text of genjax/distributions.py is executed over a recording `tfd`; each exported wrapper
+    is SAMPLED (through the real tfp_distribution / wrap_sampler and the site model) and SCORED with every call
+    pattern, and both must construct the documented TFP class with every argument bound to the documented parameter
+    name - the same binding on the sampling and on the density side"""
 
     target = "genjax.distributions:<24 wrappers>"
     cases = sorted(SPEC) + sorted(LAMBDA_SPEC)
@@ -106,81 +232,163 @@ class WrapperTable(_NoReplay):
         self.mod = self.owner = self.fn = None
 
     def call(self, case):
-        self.dist = getattr(D, case)
-        self.smp, self.lpf, self.ks, self.lp, self.cs, self.cl = parts(self.dist)
-        self.log = []
-        if case in LAMBDA_SPEC:
-            log = self.log
-            stub = StubNS()
-            for nm in ("Bernoulli", "Categorical"):
-                setattr(stub, nm, (lambda nm: lambda *a, **k: TfpRec(log, nm, a, k))(nm))
-            self._orig = D.tfd
-            D.tfd = stub
-            self.p = value("param")
-            try:
-                return self.real(self.cs.cell_contents, self.p)
-            finally:
-                D.tfd = self._orig
-        return None
-
-    def ensures(self, case, path):
-        yield "is_a_Distribution", isinstance(self.dist, core.Distribution)
-        yield "sampler_and_logpdf_share_one_constructor", self.cs.cell_contents is self.cl.cell_contents
+        mod, log = distributions_over_recording_tfd()
+        self.dist = getattr(mod, case)
+        self.real_dist = getattr(D, case)
+        self.bad, self.n = [], 0
         if case in SPEC:
             cls_name, pos = SPEC[case]
-            ctor = self.cs.cell_contents
-            yield "selects_the_documented_TFP_distribution", ctor is getattr(tfd_real, cls_name)
-            params = [p for p in inspect.signature(ctor.__init__).parameters if p != "self"]
-            yield "positional_arguments_bind_to_the_documented_parameters(installed TFP signature)", tuple(params[: len(pos)]) == pos
+            ctor = RecCtor([], cls_name)
+            pats = call_patterns(ctor, pos)
+            extra = {}
         else:
             cls_name, how, extra = LAMBDA_SPEC[case]
-            yield "does_not_raise", path.outcome == "return"
-            ct = [e for e in self.log if e[0] == "ctor"]
-            yield "constructs_exactly_one_TFP_distribution", len(ct) == 1 and ct[0][1] == cls_name
-            if len(ct) == 1:
-                _, _, a, k = ct[0]
-                pos_names = [p for p in inspect.signature(getattr(tfd_real, cls_name).__init__).parameters if p != "self"]
-                bound = dict(zip(pos_names, a))
-                bound.update(k)
-                yield "argument_binds_as_documented", bound.get(how) is self.p
-                for kk, vv in extra.items():
-                    yield "documented_%s" % kk, vv in str(bound.get(kk))
-                yield "no_other_parameter_set", set(bound) == {how} | set(extra)
+            ctor = RecCtor([], cls_name)
+            p = value("param")
+            pats = [((p,), {}, {how: p})]
+        self.cls_name = cls_name
+        S_ = (Sym(fresh("s0", z3.IntSort())),)
+        v = value("v")
+        with site_model():
+            for pi, (args, kw, exp) in enumerate(pats):
+                self.n += 1
+                for side in ("sample", "logpdf"):
+                    del log[:]
+                    if pi >= 2:
+                        # beyond the two documented forms (all positional / all by documented keyword) a wrapper may
+                        # simply not ACCEPT a call form (TypeError at its constructor): that is not a wrong binding
+                        from vt.contract import RealRaise
+
+                        try:
+                            self.real(self.dist.sample if side == "sample" else self.dist.logpdf, *(((v,) if side == "logpdf" else ()) + args), **(dict(kw, sample_shape=S_) if side == "sample" else kw))
+                        except RealRaise as rr:
+                            if isinstance(rr.exc, TypeError):
+                                self.skipped = getattr(self, "skipped", 0) + 1
+                                continue
+                            raise
+                        except EngineLimit:
+                            pass
+                        del log[:]
+                    try:
+                        if side == "sample":
+                            out = self.real(self.dist.sample, *args, sample_shape=S_, **kw)
+                        else:
+                            out = self.real(self.dist.logpdf, v, *args, **kw)
+                    except EngineLimit:
+                        # the wrapper computes on its parameters with functions outside the dependency model: run this
+                        # pattern again on CONCRETE arrays (the recorder compares the objects bound, so pass-through
+                        # binding is still decided exactly; value-dependent branching would not be)
+                        Assumed.note("C13 wrapper table: concrete-parameter fallback used for a wrapper that computes on its parameters with unmodelled functions")
+                        import numpy as _np
+
+                        conc = {}
+
+                        def cv(x):
+                            if id(x) not in conc:
+                                conc[id(x)] = _np.eye(2) * float(len(conc) + 2)
+                            return conc[id(x)]
+
+                        args = tuple(cv(a) for a in args)
+                        kw = {k: cv(x) for k, x in kw.items()}
+                        exp = {k: cv(x) for k, x in exp.items()}
+                        del log[:]
+                        real_jnp, self.dist_jnp = None, None
+                        mod.jnp, saved_jnp = __import__("jax.numpy").numpy, mod.jnp
+                        try:
+                            if side == "sample":
+                                out = self.real(self.dist.sample, *args, sample_shape=S_, **kw)
+                            else:
+                                out = self.real(self.dist.logpdf, v, *args, **kw)
+                        finally:
+                            mod.jnp = saved_jnp
+                    ct = [e for e in log if e[0] == "ctor"]
+                    ok = len(ct) == 1 and ct[0][1] == cls_name
+                    if ok:
+                        b = ctor.bound(ct[0][2], ct[0][3])
+                        for kk, vv in extra.items():
+                            ok = ok and vv in str(b.pop(kk, None))
+                        ok = ok and set(b) == set(exp) and all(b[n] is exp[n] for n in exp)
+                    if ok and side == "sample":
+                        sc = [e for e in log if e[0] == "sample"]
+                        ok = len(sc) == 1 and sc[0][3].get("seed") is KEY and sc[0][3].get("sample_shape") == S_ and out == "draw"
+                    if ok and side == "logpdf":
+                        lc = [e for e in log if e[0] == "log_prob"]
+                        ok = len(lc) == 1 and lc[0][2][0] is v and out == "logp"
+                    if not ok:
+                        self.bad.append((side, "args=%d" % len(args), sorted(kw), [(e[0], e[1], len(e[2]), sorted(e[3])) for e in log if e[0] == "ctor"]))
+        return self.n
+
+    def ensures(self, case, path):
+        yield "does_not_raise", path.outcome == "return"
+        yield "is_a_Distribution", isinstance(self.real_dist, core.Distribution) and isinstance(self.dist, core.Distribution)
+        if path.outcome != "return":
+            return
+        yield "call_patterns_generated", self.n >= 1
+        self.witness = self.bad[:4]
+        yield "sampler_and_density_construct_the_documented_TFP_distribution_with_arguments_bound_to_the_documented_names(all call patterns)", not self.bad
+        if case in SPEC:
+            cls_name, pos = SPEC[case]
+            params = [p for p in inspect.signature(getattr(tfd_real, cls_name).__init__).parameters if p != "self"]
+            yield "positional_arguments_bind_to_the_documented_parameters(installed TFP signature)", tuple(params[: len(pos)]) == pos
+
+    def replay(self, case, clause, model, path):
+        r = dict(_NoReplay.replay(self, case, clause, model, path))
+        r["failing_call_patterns(side, n positional, keywords, constructor calls seen)"] = [repr(w)[:400] for w in getattr(self, "witness", [])]
+        return r
 
 
 @contract("genjax.core:tfp_distribution", ["C13"])
 class TfpDistribution(_NoReplay):
-    """generic mechanism: the keyed sampler builds dist(*args, **kwargs) and calls .sample(seed=key,
-    sample_shape=sample_shape); logpdf builds the SAME dist(*args, **kwargs) and calls .log_prob(v)"""
+    """generic mechanism, behavioural: for ANY constructor, sampling a site of tfp_distribution(ctor) constructs
+    ctor with every argument bound to the parameter the CALL named (positionally or by keyword, also when a keyword skips
+    an earlier optional parameter) and calls .sample(seed=key, sample_shape=S); scoring constructs the same binding and
+    calls .log_prob(v)"""
 
     cases = ["sampler", "logpdf"]
 
     def call(self, case):
         self.log = []
-        log = self.log
-        ctor = lambda *a, **k: TfpRec(log, "X", a, k)
+        sig = inspect.Signature([inspect.Parameter(n, inspect.Parameter.POSITIONAL_OR_KEYWORD, default=None) for n in ("alpha", "beta", "gamma", "validate_args")])
+        ctor = RecCtor(self.log, "X", sig)
         self.d = core.tfp_distribution(ctor, name="x")
-        smp, lpf, ks, lp, cs, cl = parts(self.d)
-        self.args, self.kw = (value("a0"), value("a1")), {"validate_args": value("kw")}
-        self.key, self.Sshape, self.v = value("key"), (Sym(fresh("s0", z3.IntSort())),), value("v")
-        if case == "sampler":
-            return self.real(ks, self.key, *self.args, sample_shape=self.Sshape, **self.kw)
-        return self.real(lp, self.v, *self.args, **self.kw)
+        a, b, c = value("a"), value("b"), value("c")
+        self.pats = [((a, b), {}, {"alpha": a, "beta": b}), ((), {"alpha": a, "beta": b}, {"alpha": a, "beta": b}), ((), {"beta": b}, {"beta": b}),
+                     ((a,), {"gamma": c}, {"alpha": a, "gamma": c}), ((a, b), {"validate_args": c}, {"alpha": a, "beta": b, "validate_args": c}), ((), {"gamma": c, "alpha": a}, {"alpha": a, "gamma": c})]
+        self.Sshape, self.v = (Sym(fresh("s0", z3.IntSort())),), value("v")
+        self.obs = []
+        with site_model():
+            for args, kw, exp in self.pats:
+                del self.log[:]
+                if case == "sampler":
+                    out = self.real(self.d.sample, *args, sample_shape=self.Sshape, **kw)
+                else:
+                    out = self.real(self.d.logpdf, self.v, *args, **kw)
+                self.obs.append((out, list(self.log), ctor))
+        return len(self.obs)
 
     def ensures(self, case, path):
         yield "does_not_raise", path.outcome == "return"
         if path.outcome != "return":
             return
-        ct = [e for e in self.log if e[0] == "ctor"]
-        yield "constructed_once_from_exactly_(args, kwargs)", len(ct) == 1 and all(a is b for a, b in zip(ct[0][2], self.args)) and len(ct[0][2]) == 2 and set(ct[0][3]) == {"validate_args"} and ct[0][3]["validate_args"] is self.kw["validate_args"]
+        okc, oks, okl = True, True, True
+        for (args, kw, exp), (out, log, ctor) in zip(self.pats, self.obs):
+            ct = [e for e in log if e[0] == "ctor"]
+            if len(ct) != 1:
+                okc = False
+                continue
+            b = ctor.bound(ct[0][2], ct[0][3])
+            okc = okc and set(b) == set(exp) and all(b[n] is exp[n] for n in exp)
+            if case == "sampler":
+                sc = [e for e in log if e[0] == "sample"]
+                oks = oks and len(sc) == 1 and sc[0][3].get("seed") is KEY and sc[0][3].get("sample_shape") == self.Sshape and not sc[0][2] and out == "draw"
+            else:
+                lc = [e for e in log if e[0] == "log_prob"]
+                okl = okl and len(lc) == 1 and lc[0][2][0] is self.v and out == "logp"
+        yield "constructed_once_with_every_argument_bound_to_the_parameter_the_call_named(6 call patterns)", okc
         if case == "sampler":
-            sc = [e for e in self.log if e[0] == "sample"]
-            yield "sampled_with_the_given_key_and_sample_shape", len(sc) == 1 and sc[0][3].get("seed") is self.key and sc[0][3].get("sample_shape") is self.Sshape and not sc[0][2]
-            yield "returns_the_draw", path.value == "draw"
+            yield "sampled_with_the_given_key_and_sample_shape", oks
         else:
-            lc = [e for e in self.log if e[0] == "log_prob"]
-            yield "log_prob_of_the_value", len(lc) == 1 and lc[0][2][0] is self.v
-            yield "returns_the_log_density", path.value == "logp"
+            yield "log_prob_of_the_value", okl
 
 
 @contract("genjax.pjax:wrap_sampler", ["C13"])
